@@ -366,3 +366,26 @@ CHECKS["C08"] = dict(
     design_ref="DESIGN.md 9/C08",
     level_text="Exhaustive within bounds on the real queue.",
 )
+
+def _iter_units():
+    out = []
+    for src, short, fams in (("harness/sets_lists.cpp", "lists", [3, 6]), ("harness/sets_hash.cpp", "hash", [1, 3, 4, 5])):
+        for f in fams:
+            out.append(dict(name="iter-%s%d" % (short, f), src=src, cxxflags=["-DFAMILY=%d" % f], args=["--property", "C19"]))
+    return out
+
+CHECKS["C19"] = dict(
+    title="thread-safe iterators",
+    units=_iter_units(),
+    rule="every schedule with <= c preemptions of programs with one (or two) iterating threads against updating threads on a container holding three colliding keys: iteration vs delete of the first / middle / last "
+         "element, vs insert of a new key (which splits a Feldman slot, or links a node next to the iterator's), vs upsert (replace), vs delete+reinsert; iterate-then-erase_at(it) vs delete / upsert / another erase_at / "
+         "an adjacent insert; forward and reverse iterators for Feldman; 3-thread variants; outcome = history incl. the sequence of keys each iteration visited",
+    explanation="IterableList (container HP/DHP, intrusive HP), MichaelHashSet and SplitListSet over IterableList, FeldmanHashSet (container HP/DHP/RCU, intrusive HP/RCU; head/array bits 4/2 so that the concurrent insert splits "
+                "a slot under the iterator). Rules, all conservative with respect to the recorded invocation/response order: (a) the element the iterator is positioned on has not been disposed (intrusive: disposer flag; "
+                "container: poisoned destructor) and no instrumented access touches a disposed item; (b) a key whose insertion returned before the iteration was invoked, with no removal/replacement invoked before the "
+                "iteration returned, is visited - exactly once (IterableList and the hash sets over it) or at least once (Feldman); IterableList visits keys in strictly increasing order; (c) every visited element was "
+                "inserted by somebody before the iteration ended and not removed before it began; (d) erase_at(it) is an operation of the linearizability history: it removes exactly the element the iterator points to "
+                "(identity = value) and may fail only if that element is no longer the one stored under the key.",
+    design_ref="DESIGN.md 9/C19",
+    level_text="Exhaustive within bounds on the real iterators.",
+)
